@@ -44,6 +44,9 @@ class Translator:
     def __init__(self, module_ast):
         self.classes = {n.name: n for n in module_ast.body if isinstance(n, ast.ClassDef)}
         self.helpers = {n.name: n for n in module_ast.body if isinstance(n, ast.FunctionDef)}
+        self.module_ints = {n.targets[0].id: n.value.value for n in module_ast.body
+                            if isinstance(n, ast.Assign) and len(n.targets) == 1 and isinstance(n.targets[0], ast.Name)
+                            and isinstance(n.value, ast.Constant) and type(n.value.value) is int}
         self.emitted = {}        # method name -> self attributes it reads (methods translated into definitions of their own)
 
     # ---- class structure
@@ -70,6 +73,18 @@ class Translator:
         body = [s for s in f.body if not (isinstance(s, ast.Expr) and isinstance(s.value, ast.Constant))]
         if len(body) == 1 and isinstance(body[0], ast.Return) and isinstance(body[0].value, ast.Constant):
             return self.constant(body[0].value.value)
+        return None
+
+    def class_string_list(self, cname, attr):
+        """a class attribute assigned a list of string constants, as a Lean term (or None)"""
+        c = self.classes.get(cname)
+        if c is None:
+            return None
+        for n in c.body:
+            if isinstance(n, ast.Assign) and len(n.targets) == 1 and isinstance(n.targets[0], ast.Name) and \
+                    n.targets[0].id == attr and isinstance(n.value, ast.List) and \
+                    all(isinstance(x, ast.Constant) and isinstance(x.value, str) for x in n.value.elts):
+                return '(cStrList [%s])' % ', '.join('"%s"' % x.value for x in n.value.elts)
         return None
 
     def const_method(self, cname, mname):
@@ -105,9 +120,16 @@ class Translator:
         if isinstance(e, ast.Name):
             if e.id in env:
                 return env[e.id]
+            if e.id in self.module_ints:
+                return '(cInt (%d))' % self.module_ints[e.id]
             raise Untranslatable('free name %s' % e.id)
+        if isinstance(e, ast.Tuple) and not e.elts:
+            return 'cEmptyTuple'
         if isinstance(e, ast.Attribute) and isinstance(e.value, ast.Name) and e.value.id == 'self':
             c = self.const_property(cname, e.attr)
+            if c is not None:
+                return c
+            c = self.class_string_list(cname, e.attr)
             if c is not None:
                 return c
             self.attrs.add(e.attr)
@@ -177,6 +199,9 @@ class Translator:
         if isinstance(e, ast.Call) and not e.keywords:
             f = e.func
             if isinstance(f, ast.Name):
+                if f.id == 'isinstance' and len(e.args) == 2 and isinstance(e.args[1], ast.Tuple) and \
+                        sorted(getattr(x, 'id', '?') for x in e.args[1].elts) == ['Rule', 'dict']:
+                    return '(isRuleLikeM %s)' % self.expr(e.args[0], env, cname)
                 if f.id == 'isinstance' and len(e.args) == 2 and isinstance(e.args[1], ast.Name):
                     return '(isinstanceM %s "%s")' % (self.expr(e.args[0], env, cname), e.args[1].id)
                 if f.id == '__append__' and len(e.args) == 2:
@@ -189,7 +214,8 @@ class Translator:
                         e.args[0].args[1].value == 'satisfied':
                     return '(hasSatisfiedM %s)' % self.expr(e.args[0].args[0], env, cname)
                 if f.id == 'getattr' and len(e.args) == 3:
-                    return '(getattrDynM %s %s %s)' % tuple(self.expr(a, env, cname) for a in e.args)
+                    prim = 'getattrObjM' if cname == 'Policy' else 'getattrDynM'
+                    return '(%s %s %s %s)' % ((prim,) + tuple(self.expr(a, env, cname) for a in e.args))
                 if f.id == 'getattr' and len(e.args) == 2:
                     name = None
                     a1 = e.args[1]
@@ -216,6 +242,9 @@ class Translator:
                 if len(e.args) != want:
                     raise Untranslatable('%s with %d arguments' % (f.attr, len(e.args)))
                 return '(%s (pure self_%s) %s)' % (prim, f.value.attr, ' '.join(self.expr(a, env, cname) for a in e.args))
+            if isinstance(f, ast.Attribute) and isinstance(f.value, ast.Name) and f.value.id == 'copy' and \
+                    f.attr == 'copy' and len(e.args) == 1:
+                return '(copyM %s)' % self.expr(e.args[0], env, cname)
             if isinstance(f, ast.Attribute) and isinstance(f.value, ast.Name) and f.value.id == 're' and \
                     f.attr == 'fullmatch' and len(e.args) == 2:
                 return '(reFullmatchM %s %s)' % (self.expr(e.args[0], env, cname), self.expr(e.args[1], env, cname))
@@ -429,6 +458,16 @@ class Translator:
             s = ast.Assign(targets=[ast.Name(id=tgt, ctx=ast.Store())],
                            value=ast.Call(func=ast.Name(id='__append__', ctx=ast.Load()),
                                           args=[ast.Name(id=tgt, ctx=ast.Load()), s.value.args[0]], keywords=[]))
+        if isinstance(s, ast.Assign) and len(s.targets) == 1 and isinstance(s.targets[0], ast.Subscript) and \
+                isinstance(s.targets[0].value, ast.Attribute) and s.targets[0].value.attr == '__dict__' and \
+                isinstance(s.targets[0].value.value, ast.Name) and s.targets[0].value.value.id in env:
+            tgt = s.targets[0].value.value.id
+            name = 'v_' + tgt
+            val = '(setDictItemM %s %s %s)' % (env[tgt], self.expr(s.targets[0].slice, env, cname),
+                                               self.expr(s.value, env, cname))
+            env2 = dict(env)
+            env2[tgt] = '(pure %s)' % name
+            return '(bindM %s fun %s =>\n      %s)' % (val, name, self.block(rest, env2, cname, end, brk))
         if isinstance(s, ast.AugAssign) and isinstance(s.target, ast.Name) and isinstance(s.op, ast.Add):
             s = ast.Assign(targets=[ast.Name(id=s.target.id, ctx=ast.Store())],
                            value=ast.BinOp(left=ast.Name(id=s.target.id, ctx=ast.Load()), op=ast.Add(), right=s.value))
@@ -569,6 +608,34 @@ def translate_parser(repo):
     return '\n'.join(out) + '\n', [('parser', c, []) for c in done], [('parser', c, r) for c, r in failed]
 
 
+POLICY_METHODS = ['_calculate_type']
+
+
+def translate_policy(repo):
+    out = ['import Model.PyPrim', '/-! GENERATED by harness/pytolean.py from vakt/policy.py - do not edit -/',
+           'set_option linter.unusedVariables false', 'namespace Vakt.GenPolicy', 'open Vakt Vakt.PyPrim', '']
+    done, failed = [], []
+    tr = Translator(ast.parse(open(os.path.join(repo, 'vakt', 'policy.py')).read()))
+    for m in POLICY_METHODS:
+        try:
+            f = tr.method('Policy', m)
+            params = [a.arg for a in f.args.args]
+            tr.attrs, tr.fresh = set(), 0
+            env = {p: '(pure p_%s)' % p for p in params}          # `self` is an ordinary (object) parameter here
+            body = tr.block(f.body, env, 'Policy')
+            out.append('/-- `vakt.policy.Policy.%s` -/' % m)
+            out.append('def %s_Policy (%s : V) : M :=\n    %s\n' % (m.lstrip('_'), ' '.join('p_%s' % p for p in params), body))
+            done.append(m)
+        except Untranslatable as e:
+            failed.append((m, str(e)))
+    out.append('def translatedPolicy : List String := [%s]' % ', '.join('"%s"' % c for c in done))
+    out.append('def untranslatedPolicy : List (String × String) := [%s]' % ', '.join(
+        '("%s", "%s")' % (c, r.replace('"', "'")) for c, r in failed))
+    out.append('')
+    out.append('end Vakt.GenPolicy')
+    return '\n'.join(out) + '\n', [('policy', c, []) for c in done], [('policy', c, r) for c, r in failed]
+
+
 GUARD_METHODS = ['check_context_restriction', 'check_policies_allow', 'is_allowed_check']
 
 
@@ -641,7 +708,16 @@ def regenerate(repo, lean_dir):
                  % str(e).replace('-/', '- /')[:300])
         ptr, pun = [], [('parser', '*', str(e))]
     changed = _write(os.path.join(lean_dir, 'Gen', 'Parser.lean'), ptext) or changed
-    return changed, translated + ctr + gtr + ptr, untranslated + cun + gun + pun
+    try:
+        otext, otr, oun = translate_policy(repo)
+    except Exception as e:
+        otext = ('import Model.PyPrim\n/-! GENERATED by harness/pytolean.py: translation failed: %s -/\n'
+                 'namespace Vakt.GenPolicy\ndef translatedPolicy : List String := []\n'
+                 'def untranslatedPolicy : List (String × String) := []\nend Vakt.GenPolicy\n'
+                 % str(e).replace('-/', '- /')[:300])
+        otr, oun = [], [('policy', '*', str(e))]
+    changed = _write(os.path.join(lean_dir, 'Gen', 'Policy.lean'), otext) or changed
+    return changed, translated + ctr + gtr + ptr + otr, untranslated + cun + gun + pun + oun
 
 
 if __name__ == '__main__':
@@ -653,5 +729,7 @@ if __name__ == '__main__':
         text, tr, un = translate_guard(repo)
     if '--parser' in sys.argv:
         text, tr, un = translate_parser(repo)
+    if '--policy' in sys.argv:
+        text, tr, un = translate_policy(repo)
     sys.stdout.write(text)
     sys.stderr.write('translated %d, untranslated %d: %r\n' % (len(tr), len(un), un))
